@@ -7,9 +7,10 @@ from ..fieldmatrix import Matrix, MethodInfo, NODE_CLASSES, loop_bindings
 from ..shapes import u
 
 # (class, field) pairs that get_r legitimately does not descend into, with the reason
+# fields that get_r reaches in a special way (checked by dedicated clauses below), not through `self.<field>.get_r(..)`
 GET_R_EXEMPT = {
-    ('ExprAff', 'dst'): 'destination is written, reported by get_w',
-    ('ExprMem', 'segm'): 'segment selector: segmented addressing is outside the standard bit-vector meaning (note)',
+    ('ExprAff', 'dst'): 'the destination is written (get_w); of a memory destination the ADDRESS and segment are read: dedicated clause',
+    ('ExprMem', 'segm'): 'read when it is an expression: dedicated clause',
 }
 
 
@@ -126,21 +127,46 @@ def run(ctx, report):
                 R1.violation(c + '.get_r', 'ExprId.get_r:self', 'ExprId.get_r does not return {self}', where(mod, fn))
                 bad = True
         if c == 'ExprMem':
+            def mentions_cell(e):
+                return any(isinstance(n, ast.Name) and n.id == 'self' and not isinstance(getattr(n, '_parent', None), ast.Attribute) for n in ast.walk(e))
             for r in rets:
-                if not any(isinstance(n, ast.Name) and n.id == 'self' and not isinstance(getattr(n, '_parent', None), ast.Attribute)
-                           for n in ast.walk(r.value)):
+                srcs = [r.value]
+                if isinstance(r.value, ast.Name):
+                    # the returned local: every value it was built from in this function
+                    srcs = [a.value for a in ast.walk(fn) if isinstance(a, ast.Assign) and u(a.targets[0]) == r.value.id]
+                if not any(mentions_cell(e) for e in srcs):
                     R1.violation(c + '.get_r', 'ExprMem.get_r:self:' + norm(r), 'ExprMem.get_r return omits the memory cell itself: %s' % norm(r), where(mod, r))
                     bad = True
             # the recursion into the address must be on the mem_read path
-            ifs = [n for n in ast.walk(fn) if isinstance(n, ast.If)]
-            if not (len(ifs) == 1 and u(ifs[0].test) == mr):
+            ifs = [n for n in ast.walk(fn) if isinstance(n, ast.If) and u(n.test) == mr]
+            if len(ifs) != 1:
                 raise AnalysisError('ExprMem.get_r branch structure changed')
+            segcalls = [n for s_ in ifs[0].body for n in ast.walk(s_) if isinstance(n, ast.Call) and u(n.func) == 'self.segm.get_r' and mr in [u(a) for a in n.args]]
+            if segcalls:
+                R1.ok('ExprMem.get_r:segm', sample='ExprMem.get_r(mem_read=True) includes the read set of an expression-valued segment selector')
+            else:
+                R1.violation('ExprMem.get_r:segm', 'ExprMem.get_r:segm', 'the segment selector of a memory operand is not in its read set', where(mod, fn),
+                             witness="'mov eax, fs:[eax]' does not read fs")
             if not any(meth == 'get_r' and f == 'arg' and any(n is call for s in ifs[0].body for n in ast.walk(s))
                        for f, meth, call in mi.calls):
                 R1.violation(c + '.get_r', 'ExprMem.get_r:arg:branch', 'address identifiers are not reported when mem_read is requested', where(mod, fn))
                 bad = True
         if not bad:
             R1.ok(c + '.get_r', sample='%s.get_r recurses into %s' % (c, sorted(f for f in mi.recursed if 'get_r' in mi.recursed[f])))
+    # a store reads its address (and segment)
+    ga = M.methods['ExprAff'].get('get_r')
+    if ga is None:
+        raise AnalysisError('ExprAff.get_r not found')
+    mr_a = ga.fn.args.args[1].arg
+    guard_ifs = [n for n in ast.walk(ga.fn) if isinstance(n, ast.If) and 'isinstance(self.dst, ExprMem)' in u(n.test)]
+    addr = [n for g in guard_ifs for s_ in g.body for n in ast.walk(s_) if isinstance(n, ast.Call) and u(n.func) == 'self.dst.arg.get_r' and mr_a in [u(a) for a in n.args]]
+    segm = [n for g in guard_ifs for s_ in g.body for n in ast.walk(s_) if isinstance(n, ast.Call) and u(n.func) == 'self.dst.segm.get_r']
+    rets_a = [n for n in ast.walk(ga.fn) if isinstance(n, ast.Return)]
+    if addr and segm and rets_a and all(u(r.value) != 'self.src.get_r(%s)' % mr_a for r in rets_a):
+        R1.ok('ExprAff.get_r:store-address', sample='ExprAff.get_r adds the read set of the address and segment of a memory destination')
+    else:
+        R1.violation('ExprAff.get_r:store-address', 'ExprAff.get_r:store-address', 'the read set of an assignment to memory omits the registers that form the address (and the segment selector)',
+                     where(mod, ga.fn), witness="'mov [ebx+ecx*4], 1' reads nothing")
     # get_w
     gw = M.methods['ExprAff'].get('get_w')
     if gw is None:
@@ -279,11 +305,12 @@ def run(ctx, report):
 
 
 MUTANTS = [
+    ('aff-getr-src-only', 'miasmx/expression/expression.py', "            r = r.union(self.dst.arg.get_r(mem_read))\n", "", 'C16.D1'),
+    ('mem-getr-no-segm', 'miasmx/expression/expression.py', "            if isinstance(self.segm, Expr):\n                r = r.union(self.segm.get_r(mem_read))\n            return r", "            return r", 'C16.D1'),
     ('cond-get_r-skip', 'miasmx/expression/expression.py',
      'out=self.cond.get_r(mem_read).union(self.src1.get_r(mem_read)).union(self.src2.get_r(mem_read))',
      'out=self.src1.get_r(mem_read).union(self.src2.get_r(mem_read))', 'C16.D1'),
-    ('mem-get_r-noaddr', 'miasmx/expression/expression.py',
-     'return set(self.arg.get_r(mem_read).union(set([self])))', 'return set([self])', 'C16.D1'),
+    ('mem-get_r-noaddr', 'miasmx/expression/expression.py', "            r = set(self.arg.get_r(mem_read).union(set([self])))", "            r = set([self])", 'C16.D1'),
     ('op-get_r-nomemread', 'miasmx/expression/expression.py',
      '            r = r.union(a.get_r(mem_read))\n        return r\n    def get_w(self):\n        raise ValueError',
      '            r = r.union(a.get_r())\n        return r\n    def get_w(self):\n        raise ValueError', 'C16.D1'),
